@@ -70,6 +70,9 @@ def r14_1_marshalling(ctx):
         "15 plain": ["plain"] * 15,
         "16 plain": ["plain"] * 16,
         "18 plain": ["plain"] * 18,
+        "13 plain + account, application, asset (16 application arguments)": ["plain"] * 13 + ["account", "application", "asset"],
+        "12 plain + account, application, asset (15 application arguments)": ["plain"] * 12 + ["account", "application", "asset"],
+        "16 plain + 2 transactions": ["txn:pay"] + ["plain"] * 16 + ["txn:axfer"],
     }
     for sname, kinds in shapes.items():
         for variant in ("abi", "expr"):
